@@ -539,6 +539,11 @@ func checkC06(p *Prog, l *Ledger) {
 	})
 	// … and C02's operator table (type mismatch, zero divisor, negative shift count are reported before the operation)
 	l.As(map[string]string{"C02/": "C06/S0-fault-detected/operators/"}, func() { checkC02(p, l) })
+	// an invalid operation ends in a diagnostic, not in a Go panic: the panic-site rules of C07 (assertions, comparisons,
+	// indexes, division, shifts, nil maps and pointers) for the evaluator and the built-ins
+	l.AsOnlyWhere(map[string]string{"C07/P1-": "C06/S0-fault-detected/no-panic/P1-", "C07/P2-": "C06/S0-fault-detected/no-panic/P2-", "C07/P3-": "C06/S0-fault-detected/no-panic/P3-",
+		"C07/P4-": "C06/S0-fault-detected/no-panic/P4-", "C07/P5-": "C06/S0-fault-detected/no-panic/P5-", "C07/P6-": "C06/S0-fault-detected/no-panic/P6-", "C07/P7-": "C06/S0-fault-detected/no-panic/P7-"},
+		func(o *Obligation) bool { return strings.HasPrefix(o.Pos, "interpreter/") || strings.HasPrefix(o.Pos, "environment/") }, func() { checkC07(p, l) })
 	// ---- S1 single reporter
 	checkFlagWriters(p, l, "C06/S1-single-reporter")
 	// ---- S2 / S3
